@@ -13,6 +13,9 @@ CHECKS = {
  "C04": ("name-provenance classification at global-reference sinks paired with addDep on all paths (SSA), store/registration order, CFG facts of the emission closure",
          "Decides, for every input program at once, the translator-side necessary conditions of defined-before-use and unique naming: every emitted same-package global reference is paired with dependency recording on every path, definition names are registered in their final form, the emission closure marks, visits every recorded dependency unconditionally and only then appends, method names come from one function. Level 'other'.",
          "Coq accepting the file is not decided. One known finding (T__m collision).", "DESIGN.md §4 C04"),
+ "C05": ("per-path delimiter balance of every printer function, needs_paren classification of every emitter, taint from Go text to Coq string/comment sinks with value-specific guard facts, control-dependence of configuration flags",
+         "Decides by structural induction over the printer (every emitter balanced given balanced holes, every emitter honours/passes needs_paren or is closed/atomic) and by taint analysis that source text reaches Coq strings only under a no-quote fact for that value and comments only through the two-pass sanitiser, that flags cannot influence bodies and that no declaration text is used as a term. Level 'other'.",
+         "Coq's actual parser is not run; its documented lexical rules are used. Three known findings (for-init and non-tail block scope leak, quotes inside comments).", "DESIGN.md §4 C05"),
  "C06": ("map-range idiom classification, global-store scan, goroutine capture analysis, ambient-source who-may-call, with a positive-control package",
          "Decides the structural causes of non-determinism and cross-package influence for every run and schedule: no order-sensitive map iteration, package-level state immutable after init, workers write only their own slot and follow the WaitGroup protocol, no clock/random/env sources, sort before emit, the command writes a package's file depending only on that package's error. Level 'other'.",
          "Races inside go/packages/go/types are not decided (documented concurrency-safe).", "DESIGN.md §4 C06"),
